@@ -90,8 +90,14 @@ func (h *hookReader) Read(p []byte) (int, error) {
 func c05PNG(name string, w, h uint32, ct, depth, il uint8, rng *core.RNG, anc int) genFile {
 	s := pngSpecFor(w, h, ct, depth, il, rng)
 	s.Pre = randAncillary(rng, anc, false)
+	if rng.Intn(3) == 0 {
+		s.Pre = append(s.Pre, colourChunks(rng, ct)...)
+	}
 	if rng.Intn(4) == 0 {
 		s.ICC = &imggen.PNGICC{Name: latin1(rng, 1+rng.Intn(79)), Profile: profileBytes(rng, 1+rng.Intn(600), rng.Intn(3)), Level: rng.Range(-2, 9)}
+		if rng.Intn(3) == 0 { // the zlib header declares a smaller window than Go's writer does
+			s.ICC.RawStream = zlibWindow(imggen.Deflate(s.ICC.Profile, s.ICC.Level), len(s.ICC.Profile), rng.Intn(8))
+		}
 	}
 	if rng.Intn(3) == 0 {
 		s.Post = append(s.Post, randAncillary(rng, 2, false)...)
@@ -110,6 +116,24 @@ func c05JPEG(name string, w, h int, prog bool, ncomp int, samp [2]byte, rng *cor
 	s.Before = randJPEGSegs(rng, segs, false)
 	if rng.Intn(3) == 0 {
 		s.After = randJPEGSegs(rng, 2, false)
+	}
+	if !prog {
+		// a baseline frame may only use table destinations 0 and 1
+		for _, list := range [][]imggen.JPEGSeg{s.Before, s.After} {
+			for _, sg := range list {
+				if sg.Marker != 0xC4 {
+					continue
+				}
+				for o := 0; o+17 <= len(sg.Payload); {
+					sg.Payload[o] &= 0x11
+					n := 0
+					for _, c := range sg.Payload[o+1 : o+17] {
+						n += int(c)
+					}
+					o += 17 + n
+				}
+			}
+		}
 	}
 	b, t := s.Build()
 	return genFile{fmt.Sprintf("%s jpeg %dx%d prog=%v comps=%d samp=%v", name, w, h, prog, ncomp, samp), b, t}
